@@ -2643,8 +2643,11 @@ class Huber(Functional):
             tmp = norm.ufuncs.square()
             tmp *= 1 / (2 * self.gamma)
 
-            index = norm.ufuncs.greater_equal(self.gamma)
-            tmp[index] = norm[index] - self.gamma / 2
+            # Index the underlying arrays: masking an element of an
+            # array-weighted space would create a sub-space with
+            # non-matching weights.
+            index = norm.ufuncs.greater_equal(self.gamma).asarray()
+            tmp[index] = norm.asarray()[index] - self.gamma / 2
         else:
             tmp = norm
 
@@ -2731,12 +2734,14 @@ class Huber(Functional):
 
                 grad = x / functional.gamma
 
-                index = norm.ufuncs.greater_equal(functional.gamma)
+                # Index the underlying arrays, see `Huber._call`
+                index = norm.ufuncs.greater_equal(functional.gamma).asarray()
+                norm_arr = norm.asarray()
                 if isinstance(self.domain, ProductSpace):
                     for xi, gi in zip(x, grad):
-                        gi[index] = xi[index] / norm[index]
+                        gi[index] = xi.asarray()[index] / norm_arr[index]
                 else:
-                    grad[index] = x[index] / norm[index]
+                    grad[index] = x.asarray()[index] / norm_arr[index]
 
                 return grad
 
